@@ -324,7 +324,10 @@ Definition is_env (e : event) : bool :=
 (* every internal event that could be enabled in s (finite: one per handler) *)
 Definition internal_candidates (s : st) : list event :=
   [EReaderGet; EReaderFail; EReaderQuit; EArrive; ETake; EDropDone; EWriterQuit; EReturn; EStop]
-  ++ flat_map (fun kv => [EComplete (fst kv); EGiveUp (fst kv)]) (map_to_list (hs s)).
+  ++ flat_map (fun kv => match h_st (snd kv) with
+                         | HFin _ => [EComplete (fst kv); EGiveUp (fst kv)]   (* enabled only after Handle returned *)
+                         | _ => []
+                         end) (map_to_list (hs s)).
 
 Definition enabled_internal (v : variant) (s : st) : list event :=
   List.filter (fun e => match step v s e with Some _ => true | None => false end) (internal_candidates s).
